@@ -54,18 +54,21 @@ func c05Counter(c *Ctx) {
 		fn := p.MustMethod(pkgBalloon, "Balloon", nm)
 		name := funcName(fn)
 		isVer := func(t *Term) bool { return t.IsField("version", isParam(fn, 0)) }
-		var stores []*ssa.Store
-		eachInstr(fn, func(in ssa.Instruction) {
+		// the advance may sit in a helper of the balloon (e.g. a `reserve(n)` method): look through
+		// same-package callees and describe what they store in Add's own vocabulary
+		rg := p.RegionOf(fn, 2)
+		var stores []regionInstr
+		rg.Instrs(func(site regionSite, in ssa.Instruction) {
 			if st, ok := in.(*ssa.Store); ok {
-				if fa, ok := st.Addr.(*ssa.FieldAddr); ok && structFieldName(deref(fa.X.Type()), fa.Field) == "version" && p.TermOf(fa.X).IsParam(fn, 0) {
-					stores = append(stores, st)
+				if fa, ok := st.Addr.(*ssa.FieldAddr); ok && structFieldName(deref(fa.X.Type()), fa.Field) == "version" && rg.Term(site, fa.X).IsParam(fn, 0) {
+					stores = append(stores, regionInstr{site, in})
 				}
 			}
 		})
 		okAdv := len(stores) == 1
 		var got string
 		if okAdv {
-			t := p.TermOf(stores[0].Val)
+			t := rg.Term(stores[0].site, stores[0].in.(*ssa.Store).Val)
 			got = t.String()
 			okAdv = t.Op == "binop" && t.Name == "+" && isVer(t.Args[0])
 			if okAdv {
@@ -84,28 +87,58 @@ func c05Counter(c *Ctx) {
 			for _, al := range balloonSnapshotAllocs(fn) {
 				_, bf := p.storesTo(al)
 				if len(bf["Version"]) == 1 {
-					t := p.TermOf(bf["Version"][0])
+					t := p.X(p.TermOf(bf["Version"][0]))
 					vs = t.String()
 					// the value read before the increment: the load precedes the store
-					if isVer(t) && len(stores) == 1 {
-						v := bf["Version"][0]
-						// look through a captured local (the goroutine captures `version`)
-						if u, isU := v.(*ssa.UnOp); isU {
-							if cell, isA := u.X.(*ssa.Alloc); isA {
-								if whole, _ := p.storesTo(cell); len(whole) == 1 {
-									v = whole[0]
-								}
-							}
-						}
-						if ld, isI := v.(ssa.Instruction); isI && instrBefore(ld, stores[0]) {
-							ok = true
-						}
+					if isVer(t) && len(stores) == 1 && preAdvanceRead(p, rg, rg.sites[fn][0], bf["Version"][0], stores[0], 0) {
+						ok = true
 					}
 				}
 			}
 			c.Check(ok, "R2", name+":issued-version", fn.Pos(), "snapshot.Version = counter before the increment", "snapshot.Version ← "+vs+" (must be the counter read before it is advanced)")
 		}
 	}
+}
+
+// preAdvanceRead: v (a value of site.owner) is a read of the counter that is executed before the
+// store that advances it; a helper call is followed into each of its returns.
+func preAdvanceRead(p *Program, rg *Region, site regionSite, v ssa.Value, store regionInstr, depth int) bool {
+	if depth > 3 {
+		return false
+	}
+	// look through a captured local (the goroutine captures `version`)
+	if u, isU := v.(*ssa.UnOp); isU {
+		if cell, isA := u.X.(*ssa.Alloc); isA {
+			if whole, _ := p.storesTo(cell); len(whole) == 1 {
+				v = whole[0]
+			}
+		}
+	}
+	if call, isC := v.(*ssa.Call); isC {
+		g := call.Call.StaticCallee()
+		ss := rg.sites[g]
+		if g == nil || len(ss) == 0 || g.Signature.Results().Len() != 1 {
+			return false
+		}
+		n := 0
+		for _, b := range g.Blocks {
+			if len(b.Instrs) == 0 || b == g.Recover {
+				continue
+			}
+			if r, isR := b.Instrs[len(b.Instrs)-1].(*ssa.Return); isR {
+				n++
+				if !preAdvanceRead(p, rg, ss[0], RetVal(r, 0), store, depth+1) {
+					return false
+				}
+			}
+		}
+		return n > 0
+	}
+	ld, isI := v.(ssa.Instruction)
+	if !isI {
+		return false
+	}
+	return rg.Before(regionInstr{site, ld}, store)
 }
 
 func isLoopIndex(t *Term) bool {
@@ -127,7 +160,7 @@ func c05BulkIndex(c *Ctx) {
 				return
 			}
 			n++
-			d, v := p.TermOf(cc.Args[1]), p.TermOf(cc.Args[2])
+			d, v := p.TermOf(cc.Args[1]), p.X(p.TermOf(cc.Args[2]))
 			c.Check(d.IsParam(fn, 1) && v.IsField("version", isParam(fn, 0)), "R3", name+":"+tr.Pkg.Pkg.Name()+"-tree", in.Pos(), "tree.AddBulk(bulk, counter before advance)", fmt.Sprintf("%s.AddBulk(%s, %s), expected (the bulk, the counter read before it is advanced)", tr.Pkg.Pkg.Name(), d, v))
 		})
 		if n != 1 {
@@ -141,7 +174,7 @@ func c05BulkIndex(c *Ctx) {
 		_, bf := p.storesTo(al)
 		get := func(f string) *Term {
 			if len(bf[f]) == 1 {
-				return p.TermOf(bf[f][0])
+				return p.XAll(p.TermOf(bf[f][0]), func(g *ssa.Function) bool { return g == hiAB || g == hyAB })
 			}
 			return mk("unknown", f, nil)
 		}
